@@ -233,7 +233,7 @@ func propC18equal(a *Analysis, r *Registry, b *B) {
 		// sorted: the two sort.Ints arguments and the loop comparing them
 		var sorts []*ssa.Call
 		ctx.Instrs(func(in ssa.Instruction) {
-			if c, ok := in.(*ssa.Call); ok && c.Call.StaticCallee() != nil && c.Call.StaticCallee().String() == "sort.Ints" {
+			if c, ok := in.(*ssa.Call); ok && c.Call.StaticCallee() != nil && canonCallee(c.Call.StaticCallee().String()) == "sort.Ints" {
 				sorts = append(sorts, c)
 			}
 		})
